@@ -211,6 +211,9 @@ def big_cases(draw, tier):
 RULE_ROUND8 = " One generated forest in 20 (60 in the thorough tier) is a BIG one (gen.big_specs: a child list of 11..300 nodes, that many clones of one data object, more than 256 nodes), with node references aimed at notable positions of the long child lists. Part big-trees: 1-3 operations on a big tree. One history in eight starts with siblings whose names sort differently from their repr() ('a', 'a 1', 'a1') followed by the default sort. Flavours obj_sub and int added. Part python-O: single-steps and histories with PYTHONOPTIMIZE=1."
 RULE = RULE + RULE_ROUND8
 
+RULE_ROUND9 = ' Flavour str_kid: a TypedTree subclass overriding DEFAULT_CHILD_TYPE (the model takes the default kind from the tree); both trees of a history carry the same explicit node_ids in a third of the cases (cross-tree moves must still be refused).'
+RULE = RULE + RULE_ROUND9
+
 PARTS = [
     Part("single-steps", run_history, enum=enum_cases),
     Part("two-step-clones", run_history, enum=enum_two_step),
